@@ -338,7 +338,7 @@ class ICacheImages(Slice):
             if not imem.instruction_at_address(a):
                 continue        # the fetch stage never reads where no instruction is stored (the cache answers such a read with an empty slot)
             u, c = get(imem, a), get(cs, a)
-            if u[0] != c[0] or (u[0] == "ok" and u[1] is not c[1]) or (u[0] == "err" and u[1] != c[1]):
+            if u[0] != c[0] or (u[0] == "ok" and (repr(u[1]) != repr(c[1]) or type(u[1]) is not type(c[1]))) or (u[0] == "err" and u[1] != c[1]):
                 findings.append(("violation", f"fetch #{j} at address {a} (memory starts at {base}, instructions at words {case['present']}): uncached {u}, through the cache {c}"))
                 break
             if cs.instruction_at_address(a) != imem.instruction_at_address(a):
